@@ -365,20 +365,28 @@ class CallbacksRegistry:
             callback._iscoro for executor in self._registry.values() for callback in executor
         )
 
-    def call(self, key: str, *args, **kwargs):
+    # In the four methods below `self` and `key` are taken from the positional arguments
+    # (positional-only parameters need Python 3.8+), so that an event keyword argument that
+    # happens to be named `key` is delivered to the callbacks like any other.
+
+    def call(*args, **kwargs):
+        self, key, *args = args
         if key not in self._registry:
             return []
         return self._registry[key].call(*args, **kwargs)
 
-    def async_call(self, key: str, *args, **kwargs):
+    def async_call(*args, **kwargs):
+        self, key, *args = args
         return self._registry[key].async_call(*args, **kwargs)
 
-    def all(self, key: str, *args, **kwargs):
+    def all(*args, **kwargs):
+        self, key, *args = args
         if key not in self._registry:
             return True
         return self._registry[key].all(*args, **kwargs)
 
-    def async_all(self, key: str, *args, **kwargs):
+    def async_all(*args, **kwargs):
+        self, key, *args = args
         return self._registry[key].async_all(*args, **kwargs)
 
     def str(self, key: str) -> str:
